@@ -383,13 +383,17 @@ impl<SVC: Service> CloudServer<SVC> {
         // Now continue iterating backward from that version; any version in `old_versions` can be
         // deleted.
         let mut version = latest_snapshot;
+        let mut expired = Vec::new();
         while let Some(parent) = rev_chain.get(&version) {
             if old_versions.contains(&version) {
-                self.service
-                    .del(&Self::version_name(parent, &version))
-                    .await?;
+                expired.push(Self::version_name(parent, &version));
             }
             version = *parent;
+        }
+        // Delete the oldest first, so that the versions that remain always form an unbroken
+        // chain up to "latest", even if this cleanup is interrupted part-way.
+        for name in expired.iter().rev() {
+            self.service.del(name).await?;
         }
 
         Ok(())
